@@ -1,7 +1,7 @@
 """C03 - Decoded genotypes follow nearest-mutation inheritance and missing-data rules (structural clauses)."""
 from __future__ import annotations
 
-from . import scopes
+from . import scopes, lib_mem
 from . import lib_variant, lib_module, lib_py, lib_guards, lib_vcf
 
 LEVEL = "other"
@@ -28,3 +28,4 @@ def run(ctx):
     funcs = {"variant_init_samples_and_index_map"}
     seen = lib_guards.analyse(ctx, P, funcs=funcs)
     lib_guards.presence(ctx, seen, funcs=funcs, P=P)
+    lib_mem.c_lints(ctx, ctx.program(), scopes.lib_scope("C03"))
